@@ -112,8 +112,9 @@ def close_helpers():
 # ------------------------------------------------------------------------ gen
 def _big(seed, tier, profile):
     # a quarter of the thorough-tier scenarios are larger (not for the real-monitor / paired profiles)
-    return tier == 'thorough' and profile not in ('real', 'repro', 'units', 'delay') \
-        and random.Random('big/%s' % seed).random() < 0.25
+    if profile in ('real', 'repro', 'units', 'delay'):
+        return False
+    return random.Random('big/%s' % seed).random() < (0.25 if tier == 'thorough' else 0.04)
 
 
 def gen_case(kind, profile, seed, tier='quick'):
@@ -145,13 +146,17 @@ def gen_case(kind, profile, seed, tier='quick'):
     if kind == 'repro':
         sc = S.gen(seed, profile)
         rng = random.Random('repro/%s' % seed)
-        return {'kind': 'repro', 'sc': sc, 'hashseeds': [1, rng.randint(2, 4000), rng.randint(4001, 2 ** 31)],
+        hs = [1, rng.randint(2, 4000), rng.randint(4001, 2 ** 31)]
+        if tier == 'thorough':
+            hs += [rng.randint(2, 2 ** 31), rng.randint(2, 2 ** 31)]
+        return {'kind': 'repro', 'sc': sc, 'hashseeds': hs,
                 # another simulation, abandoned part-way, runs in the same process between the two runs
                 'interloper': {'seed': 'x/%s' % seed, 'until': rng.randint(1, 12), 'vuntil': rng.randint(1, 10)}}
     if kind == 'pause':
         sc = S.gen(seed, profile)
         rng = random.Random('pause/%s' % seed)
-        return {'kind': 'pause', 'sc': sc, 'split_seed': rng.randint(0, 10 ** 6), 'ks': None}
+        return {'kind': 'pause', 'sc': sc, 'split_seed': rng.randint(0, 10 ** 6), 'ks': None,
+                'nsplits': 3 if tier != 'thorough' else 12, 'cap': 30 if tier != 'thorough' else 90}
     if kind == 'pause_sample':
         # a few pause points per scenario instead of all of them (cheap; used by C12/C13)
         sc = S.gen(seed, profile)
@@ -431,9 +436,10 @@ def exec_pause(case, d):
     exhaustive = ks is None
     if ks is None:
         ks = list(range(1, T + 1))       # k = T: the first start() already completes the run
-        if len(ks) > 30:
+        cap = case.get('cap', 30)
+        if len(ks) > cap:
             rng = random.Random('ks/%s' % case.get('split_seed'))
-            ks = sorted(rng.sample(ks, 30))
+            ks = sorted(rng.sample(ks, cap))
             exhaustive = False
     plans = [[k] for k in ks]
     rng = random.Random('split/%s' % case.get('split_seed'))
